@@ -5,6 +5,7 @@ import (
 	"encoding/json"
 	"errors"
 	"fmt"
+	"strings"
 	"sync"
 	"testing"
 	"time"
@@ -23,15 +24,24 @@ type c15Case struct {
 	Variant  string    `json:"variant,omitempty"`
 	P        []int     `json:"params,omitempty"`
 	Truth    []bool    `json:"truth,omitempty"`
-	Attempts [][]rt.Ev `json:"attempts"`          // scripts of the (first) source, one per attempt
-	Others   [][]rt.Ev `json:"others,omitempty"`  // scripts of the other sources (fallbacks / later sources)
+	Attempts [][]rt.Ev `json:"attempts"`         // scripts of the (first) source, one per attempt
+	Others   [][]rt.Ev `json:"others,omitempty"` // scripts of the other sources (fallbacks / later sources)
 	Async    bool      `json:"async"`
 	CancelAt int       `json:"cancel_during_attempt"` // -1 = never
 	Twice    bool      `json:"subscribe_twice,omitempty"`
+	// TeardownUs: every attempt's teardown takes this long (an attempt is released
+	// when its teardown has finished, not when it starts)
+	TeardownUs int `json:"teardown_us,omitempty"`
+	// Virtual: run in virtual time, asynchronous attempts deliver their first
+	// notification 1ms after being subscribed - by then the operator is waiting for
+	// the attempt to end, so the order "teardown, then next attempt" is not left to
+	// the scheduler.
+	Virtual bool `json:"virtual_time,omitempty"`
 }
 
 func init() {
 	replayers["attempts"] = func(t *testing.T, raw json.RawMessage) {
+		currentT = t
 		var c c15Case
 		if err := json.Unmarshal(raw, &c); err != nil {
 			t.Fatal(err)
@@ -49,6 +59,7 @@ type seqMon struct {
 	maxLive int
 	live    int
 	bad     string
+	dwell   time.Duration
 }
 
 func (m *seqMon) attach(s *rt.OutcomesSrc) {
@@ -65,6 +76,9 @@ func (m *seqMon) attach(s *rt.OutcomesSrc) {
 		}
 	}
 	s.OnTeardown = func(n int) {
+		if m.dwell > 0 {
+			time.Sleep(m.dwell)
+		}
 		m.mu.Lock()
 		m.torn++
 		m.live--
@@ -105,20 +119,55 @@ func modelOutcomes(scripts [][]rt.Ev, n *int, cap int) model.Obs {
 const c15Cap = 12 // out-of-band cut for unbounded re-subscription
 
 func c15Run(t rt.TB, c c15Case) {
+	if c.Virtual {
+		var inner *rt.Failure
+		problem := bubble(currentT, func() { c15RunIn(failCatcher{TB: t, f: &inner}, c) })
+		if inner != nil {
+			rt.Report(t, *inner)
+		} else if problem != "" && !strings.Contains(problem, "blocked goroutines remain") {
+			rt.Report(t, rt.Failure{Property: "C15", Check: "attempts", Op: c.Op, Class: "bubble-problem", Msg: problem, Case: c})
+		}
+		return
+	}
+	c15RunIn(t, c)
+}
+
+// failCatcher keeps the first failure instead of ending the test from inside a bubble.
+type failCatcher struct {
+	rt.TB
+	f **rt.Failure
+}
+
+func c15RunIn(t rt.TB, c c15Case) {
+	report := func(f rt.Failure) {
+		if fc, ok := t.(failCatcher); ok {
+			if *fc.f == nil {
+				*fc.f = &f
+			}
+			return
+		}
+		rt.Report(t, f)
+	}
 	fail := func(class, msg string) {
-		rt.Report(t, rt.Failure{Property: "C15", Check: "attempts", Op: c.Op, Class: class, Msg: msg, Case: c})
+		report(rt.Failure{Property: "C15", Check: "attempts", Op: c.Op, Class: class, Msg: msg, Case: c})
 	}
 	rt.NewSink()
-	mon := &seqMon{}
+	mon := &seqMon{dwell: time.Duration(c.TeardownUs) * time.Microsecond}
 	a := rt.NewOutcomes("A", rt.CtorUnsafeCtx, c.Attempts)
 	a.Async = c.Async
 	a.SubscribeCap = c15Cap
+	if c.Virtual {
+		a.StartDelay = time.Millisecond
+	}
 	mon.attach(a)
 	others := make([]*rt.OutcomesSrc, len(c.Others))
 	otherObs := make([]ro.Observable[int], len(c.Others))
 	for i, s := range c.Others {
 		others[i] = rt.NewOutcomes(fmt.Sprintf("B%d", i), rt.CtorUnsafeCtx, [][]rt.Ev{s})
 		others[i].Async = c.Async
+		if c.Virtual {
+			others[i].StartDelay = time.Millisecond
+		}
 		mon.attach(others[i])
 		otherObs[i] = others[i].Observable()
 	}
@@ -296,7 +345,16 @@ func c15Run(t rt.TB, c c15Case) {
 	bad, maxLive := mon.bad, mon.maxLive
 	mon.mu.Unlock()
 	if maxLive > 1 || bad != "" {
-		fail("attempts-overlap", fmt.Sprintf("%s: %s (max simultaneously live attempts: %d)", desc, bad, maxLive))
+		class := "attempts-overlap"
+		switch {
+		case c.Virtual:
+			class = "next-attempt-started-before-release"
+		case c.TeardownUs > 0:
+			// real time, attempts that end at once and teardowns that take time: whether
+			// the operator is already waiting when the attempt ends is up to the scheduler
+			class = "attempts-overlap-wait-during-unsubscription"
+		}
+		fail(class, fmt.Sprintf("%s: %s (max simultaneously live attempts: %d)", desc, bad, maxLive))
 		return
 	}
 	if g := rec.Grammar(); g != "" {
@@ -334,6 +392,7 @@ func c15NonTrivial(c c15Case) bool {
 }
 
 func TestC15_Enumerated(t *testing.T) {
+	currentT = t
 	scripts := [][]rt.Ev{{rt.C()}, {rt.E(1)}, {rt.N(1), rt.C()}, {rt.N(1), rt.E(1)}, {rt.N(1), rt.N(2), rt.E(2)}}
 	maxAttempts := 3
 	if rt.Thorough() {
@@ -348,6 +407,15 @@ func TestC15_Enumerated(t *testing.T) {
 		}
 		c15Run(t, c)
 		rt.Case(caseKey("att", c.Op, c.Variant, c.P, c.Truth, wordsString(c.Attempts), wordsString(c.Others), c.Async, c.CancelAt), c15NonTrivial(c), "op:"+c.Op, func() any { return c })
+		if c.Async && len(c.Attempts)+len(c.Others) >= 2 {
+			// the same with teardowns that take time: the next attempt may only start
+			// when the previous one has been released, i.e. when its teardown is over
+			slow := c
+			slow.TeardownUs = 150
+			slow.Virtual = true
+			c15Run(t, slow)
+			rt.Case(caseKey("att-slow-teardown", c.Op, c.Variant, c.P, c.Truth, wordsString(c.Attempts), wordsString(c.Others), c.CancelAt), c15NonTrivial(c), "op:"+c.Op, func() any { return slow })
+		}
 	}
 	attemptSeqs(scripts, maxAttempts, func(seq [][]rt.Ev) {
 		for _, async := range []bool{false, true} {
@@ -422,6 +490,7 @@ func TestC15_Enumerated(t *testing.T) {
 }
 
 func TestC15_Random(t *testing.T) {
+	currentT = t
 	scripts := attemptScripts(3)
 	rapid.Check(t, func(t *rapid.T) {
 		n := rapid.IntRange(1, 5).Draw(t, "attempts")
@@ -445,6 +514,10 @@ func TestC15_Random(t *testing.T) {
 				c.Others = append(c.Others, scripts[rapid.IntRange(0, len(scripts)-1).Draw(t, "os")])
 			}
 			c.Attempts = seq[:1]
+		}
+		if c.Async {
+			c.TeardownUs = rapid.SampledFrom([]int{0, 100, 400}).Draw(t, "teardownUs")
+			c.Virtual = c.TeardownUs > 0 && rapid.Bool().Draw(t, "virtual")
 		}
 		c15Run(t, c)
 		rt.Case(caseKey("attrand", fmt.Sprint(c)), c15NonTrivial(c), "random:"+op, func() any { return c })
